@@ -108,6 +108,36 @@ func runC06(ctx *Ctx) *Report {
 			cases = append(cases, c)
 		}
 	}
+	// OS refusals at every position among the siblings: an over-long file leaf (first, middle, last, only one),
+	// an over-long directory, an over-long leaf directory – each is reported, whatever comes after it
+	{
+		longF := strings.Repeat("F", 254) + ".go" // 257 bytes, ends with the extension
+		longD := strings.Repeat("D", 256)
+		mk := func(kids ...*Tree) []*Tree { return []*Tree{{Name: "r", Kids: kids}} }
+		leaf := func(n string) *Tree { return &Tree{Name: n} }
+		for fi, f := range [][]*Tree{
+			mk(leaf(longF), leaf("a.go"), leaf("b.go")),
+			mk(leaf("a.go"), leaf(longF), leaf("b.go")),
+			mk(leaf("a.go"), leaf("b.go"), leaf(longF)),
+			mk(leaf(longF)),
+			mk(leaf("a.go"), &Tree{Name: longD, Kids: []*Tree{leaf("x.go")}}, leaf("b.go")),
+			mk(leaf("d"), leaf(longD), leaf("e")),
+			mk(&Tree{Name: "sub", Kids: []*Tree{leaf("a.go"), leaf(longF), leaf("z.go")}}, leaf("after")),
+			{{Name: "r1", Kids: []*Tree{leaf(longF), leaf("ok.go")}}, {Name: "r2", Kids: []*Tree{leaf("fine.go")}}},
+		} {
+			doc := spell(f, plainSpelling)
+			for _, exts := range [][]string{{".go"}, {".go", ".md"}, nil} {
+				c := newCase("mkdir")
+				c.Doc, c.DocText, c.Exts, c.Target, c.Note = hx(doc), "<over-long name, shape "+fmtInt(fi)+">", exts, "t", "os-refusal"
+				c.Pre = []FSEntry{{"t", "d"}, {"keep", "f2"}}
+				cases = append(cases, c)
+				if len(f) == 1 {
+					c.FromRoot, c.Tree, c.Doc = true, f[0].Enc(), ""
+					cases = append(cases, c)
+				}
+			}
+		}
+	}
 	// large shapes (a 300-byte name is refused by the OS: reported, nothing existing changes)
 	for bi, name := range []string{"deep", "wide", "many-roots", "long-names"} {
 		f := bigShapes()[name]
